@@ -62,7 +62,8 @@ Record sound (f : facts) : Prop := {
   s_tdata : f_tdata_no_finalize f = true;
   s_macro_forced : f_macro_forced f = true;
   s_macro_default : f_macro_default_rt f = true;
-  s_callblock : f_callblock_raw f = true;
+  s_callblock : forall vol ae, exists w, find2 (f_callblock f) vol ae = Some w /\
+          forall rt v, ow_sem w rt v = out_piece (mode_on vol ae rt) v;
   s_invoke : forall rt, find1 (f_invoke f) rt = Some rt;
   s_blockref : forall rt, find1 (f_blockref f) rt = Some rt;
   (* constants are folded only outside volatile frames and then escaped iff autoescape is on *)
@@ -87,7 +88,8 @@ Proof.
   - exact Htd.
   - exact Hmf.
   - exact Hmd.
-  - exact Hcb.
+  - intros vol ae. destruct (ow_tbl_sound _ Hcb vol ae) as (w & E & Hw). exists w. split; [exact E|].
+    intros rt v. unfold ow_sem. now rewrite Hw.
   - now apply flag_tbl_sound.
   - now apply flag_tbl_sound.
   - intros vol ae td ef esc fin Hin.
